@@ -5,6 +5,7 @@ import Restic.Model.Select
 For arbitrary decision functions `sel` (RewriteNode keeps the node) and `keep`
 (KeepEmptyDirectory): which entries survive, summary statistics, the no-match cases.
 -/
+set_option linter.unusedSimpArgs false
 namespace Restic.Proofs.C27
 open Restic.Model.Filter Restic.Model.Select
 
@@ -15,11 +16,11 @@ theorem fsum_append (a b : List (List Str × Nat)) : fsum (a ++ b) = fsum a + fs
 
 theorem files_cons (names : List Str) (c : Node) (r : List Node) :
     files names (c :: r) = files names [c] ++ files names r := by
-  cases c <;> simp [files]
+  cases c <;> simp [files_nil, files_file, files_other, files_dir]
 
 theorem entries_cons (names : List Str) (c : Node) (r : List Node) :
     entries names (c :: r) = entries names [c] ++ entries names r := by
-  cases c <;> simp [entries]
+  cases c <;> simp [entries_nil, entries_file, entries_other, entries_dir]
 
 /-! ### summary statistics -/
 
@@ -31,10 +32,10 @@ theorem sum_node (sel : List Str → Bool → Bool) (keep : List Str → Bool) (
          st.size + fsum (files names (rwNode sel keep names n st).1.toList)⟩
   | .file n sz, st => by
     unfold rwNode
-    split <;> simp [files, fsum]
+    split <;> simp [files_nil, files_file, files_other, files_dir, fsum]
   | .other n, st => by
     unfold rwNode
-    split <;> simp [files, fsum]
+    split <;> simp [files_nil, files_file, files_other, files_dir, fsum]
   | .dir n ch, st => by
     unfold rwNode
     split
@@ -45,15 +46,15 @@ theorem sum_node (sel : List Str → Bool → Bool) (keep : List Str → Bool) (
       split
       · rename_i he
         simp only [Bool.and_eq_true, List.isEmpty_iff] at he
-        rw [ih, he.1]; simp [files, fsum]
-      · rw [ih]; simp [files, fsum]
-    · simp [files, fsum]
+        rw [ih, he.1]; simp [files_nil, files_file, files_other, files_dir, fsum]
+      · rw [ih]; simp [files_nil, files_file, files_other, files_dir, fsum]
+    · simp [files_nil, files_file, files_other, files_dir, fsum]
 theorem sum_list (sel : List Str → Bool → Bool) (keep : List Str → Bool) (names : List Str) :
     ∀ (l : List Node) (st : Stats),
       (rwList sel keep names l st).2 =
         ⟨st.count + (files names (rwList sel keep names l st).1).length,
          st.size + fsum (files names (rwList sel keep names l st).1)⟩
-  | [], st => by simp [rwList, files, fsum]
+  | [], st => by simp [rwList, files_nil, files_file, files_other, files_dir, fsum]
   | c :: cs, st => by
     unfold rwList
     have ih1 := sum_node sel keep names c st
@@ -63,7 +64,7 @@ theorem sum_list (sel : List Str → Bool → Bool) (keep : List Str → Bool) (
     | none =>
       simp only at ih1 ⊢
       have ih2 := sum_list sel keep names cs st1
-      rw [ih2, ih1]; simp [files, fsum]
+      rw [ih2, ih1]; simp [files_nil, files_file, files_other, files_dir, fsum]
     | some c' =>
       simp only at ih1 ⊢
       have ih2 := sum_list sel keep names cs st1
@@ -84,19 +85,19 @@ def Chain (sel : List Str → Bool → Bool) (base : Nat) (p : List Str) (isDir 
 
 theorem entries_prefix (names : List Str) : ∀ (l : List Node) (e : Entry), e ∈ entries names l →
     ∃ n rest, e.path = names ++ n :: rest
-  | [], e, h => by simp [entries] at h
+  | [], e, h => by simp [entries_nil, entries_file, entries_other, entries_dir] at h
   | .file n sz :: r, e, h => by
-    simp only [entries, List.mem_cons] at h
+    simp only [entries_nil, entries_file, entries_other, entries_dir, List.mem_cons] at h
     rcases h with h | h
     · exact ⟨n, [], by rw [h]⟩
     · exact entries_prefix names r e h
   | .other n :: r, e, h => by
-    simp only [entries, List.mem_cons] at h
+    simp only [entries_nil, entries_file, entries_other, entries_dir, List.mem_cons] at h
     rcases h with h | h
     · exact ⟨n, [], by rw [h]⟩
     · exact entries_prefix names r e h
   | .dir n ch :: r, e, h => by
-    simp only [entries, List.mem_cons, List.mem_append] at h
+    simp only [entries_nil, entries_file, entries_other, entries_dir, List.mem_cons, List.mem_append] at h
     rcases h with h | h | h
     · exact ⟨n, [], by rw [h]⟩
     · rcases entries_prefix (names ++ [n]) ch e h with ⟨m, rest, hr⟩
@@ -149,18 +150,18 @@ theorem rw_node_sub (sel : List Str → Bool → Bool) (keep : List Str → Bool
     unfold rwNode
     split
     · rename_i hs
-      simp only [Option.toList_some, entries, List.mem_singleton]
+      simp only [Option.toList_some, entries_nil, entries_file, entries_other, entries_dir, List.mem_singleton]
       intro h; subst h
       exact ⟨rfl, (chain_top sel names n false).mpr hs⟩
-    · simp [entries]
+    · simp [entries_nil, entries_file, entries_other, entries_dir]
   | .other n, st, e => by
     unfold rwNode
     split
     · rename_i hs
-      simp only [Option.toList_some, entries, List.mem_singleton]
+      simp only [Option.toList_some, entries_nil, entries_file, entries_other, entries_dir, List.mem_singleton]
       intro h; subst h
       exact ⟨rfl, (chain_top sel names n false).mpr hs⟩
-    · simp [entries]
+    · simp [entries_nil, entries_file, entries_other, entries_dir]
   | .dir n ch, st, e => by
     unfold rwNode
     split
@@ -170,8 +171,8 @@ theorem rw_node_sub (sel : List Str → Bool → Bool) (keep : List Str → Bool
       obtain ⟨res, st'⟩ := r
       simp only at ih ⊢
       split
-      · simp [entries]
-      · simp only [Option.toList_some, entries, List.append_nil, List.mem_cons]
+      · simp [entries_nil, entries_file, entries_other, entries_dir]
+      · simp only [Option.toList_some, entries_nil, entries_file, entries_other, entries_dir, List.append_nil, List.mem_cons]
         rintro (h | h)
         · subst h
           exact ⟨Or.inl rfl, (chain_top sel names n true).mpr hs⟩
@@ -180,12 +181,12 @@ theorem rw_node_sub (sel : List Str → Bool → Bool) (keep : List Str → Bool
           rcases entries_prefix (names ++ [n]) ch e h1 with ⟨m, rest, hr⟩
           rw [hr] at h2 ⊢
           exact (chain_below sel names n m rest e.isDir).mpr ⟨hs, h2⟩
-    · simp [entries]
+    · simp [entries_nil, entries_file, entries_other, entries_dir]
 theorem rw_list_sub (sel : List Str → Bool → Bool) (keep : List Str → Bool) (names : List Str) :
     ∀ (l : List Node) (st : Stats) (e : Entry),
       e ∈ entries names (rwList sel keep names l st).1 →
         e ∈ entries names l ∧ Chain sel names.length e.path e.isDir
-  | [], st, e => by simp [rwList, entries]
+  | [], st, e => by simp [rwList, entries_nil, entries_file, entries_other, entries_dir]
   | c :: cs, st, e => by
     unfold rwList
     have ih1 := rw_node_sub sel keep names c st e
@@ -224,21 +225,21 @@ theorem rw_node_sup (sel : List Str → Bool → Bool) (keep : List Str → Bool
         e ∈ entries names (rwNode sel keep names n st).1.toList
   | .file n sz, st, e => by
     intro _ h hc
-    simp only [entries, List.mem_singleton] at h
+    simp only [entries_nil, entries_file, entries_other, entries_dir, List.mem_singleton] at h
     subst h
     unfold rwNode
     rw [if_pos hc.1]
-    simp [entries]
+    simp [entries_nil, entries_file, entries_other, entries_dir]
   | .other n, st, e => by
     intro _ h hc
-    simp only [entries, List.mem_singleton] at h
+    simp only [entries_nil, entries_file, entries_other, entries_dir, List.mem_singleton] at h
     subst h
     unfold rwNode
     rw [if_pos hc.1]
-    simp [entries]
+    simp [entries_nil, entries_file, entries_other, entries_dir]
   | .dir n ch, st, e => by
     intro hk h hc
-    simp only [entries, List.append_nil, List.mem_cons] at h
+    simp only [entries_nil, entries_file, entries_other, entries_dir, List.append_nil, List.mem_cons] at h
     unfold rwNode
     have ih := rw_list_sup sel keep (names ++ [n]) ch st e hk
     rcases h with h | h
@@ -248,7 +249,7 @@ theorem rw_node_sup (sel : List Str → Bool → Bool) (keep : List Str → Bool
       obtain ⟨res, st'⟩ := r
       simp only
       rcases hk with hk | hk
-      · rw [hk]; simp [entries]
+      · rw [hk]; simp [entries_nil, entries_file, entries_other, entries_dir]
       · simp at hk
     · rcases entries_prefix (names ++ [n]) ch e h with ⟨m, rest, hr⟩
       rw [hr] at hc
@@ -261,10 +262,10 @@ theorem rw_node_sup (sel : List Str → Bool → Bool) (keep : List Str → Bool
       simp only at this ⊢
       have hne : res.isEmpty = false := by
         cases res with
-        | nil => simp [entries] at this
+        | nil => simp [entries_nil, entries_file, entries_other, entries_dir] at this
         | cons a b => rfl
       rw [hne]
-      simp only [Bool.false_and, Bool.false_eq_true, if_false, Option.toList_some, entries,
+      simp only [Bool.false_and, Bool.false_eq_true, if_false, Option.toList_some, entries_nil, entries_file, entries_other, entries_dir,
         List.append_nil, List.mem_cons]
       exact Or.inr this
 theorem rw_list_sup (sel : List Str → Bool → Bool) (keep : List Str → Bool) (names : List Str) :
@@ -272,7 +273,7 @@ theorem rw_list_sup (sel : List Str → Bool → Bool) (keep : List Str → Bool
       ((∀ p, keep p = true) ∨ e.isDir = false) →
       e ∈ entries names l → Chain sel names.length e.path e.isDir →
         e ∈ entries names (rwList sel keep names l st).1
-  | [], st, e => by simp [entries]
+  | [], st, e => by simp [entries_nil, entries_file, entries_other, entries_dir]
   | c :: cs, st, e => by
     intro hk h hc
     rw [entries_cons] at h
@@ -286,7 +287,7 @@ theorem rw_list_sup (sel : List Str → Bool → Bool) (keep : List Str → Bool
       simp only at ih1 ⊢
       rcases List.mem_append.mp h with h | h
       · have := ih1 h hc
-        simp [entries] at this
+        simp [entries_nil, entries_file, entries_other, entries_dir] at this
       · exact ih2 h hc
     | some c' =>
       simp only [Option.toList_some] at ih1 ⊢
@@ -308,17 +309,17 @@ theorem rw_node_id (sel : List Str → Bool → Bool) (names : List Str) :
   | .file n sz, st => by
     intro h
     unfold rwNode
-    rw [if_pos (h ⟨names ++ [n], false, true, sz⟩ (by simp [entries]))]
+    rw [if_pos (h ⟨names ++ [n], false, true, sz⟩ (by simp [entries_nil, entries_file, entries_other, entries_dir]))]
   | .other n, st => by
     intro h
     unfold rwNode
-    rw [if_pos (h ⟨names ++ [n], false, false, 0⟩ (by simp [entries]))]
+    rw [if_pos (h ⟨names ++ [n], false, false, 0⟩ (by simp [entries_nil, entries_file, entries_other, entries_dir]))]
   | .dir n ch, st => by
     intro h
     unfold rwNode
-    rw [if_pos (h ⟨names ++ [n], true, false, 0⟩ (by simp [entries]))]
+    rw [if_pos (h ⟨names ++ [n], true, false, 0⟩ (by simp [entries_nil, entries_file, entries_other, entries_dir]))]
     have ih := rw_list_id sel (names ++ [n]) ch st
-      (fun e he => h e (by simp only [entries, List.append_nil, List.mem_cons]; exact Or.inr he))
+      (fun e he => h e (by simp only [entries_nil, entries_file, entries_other, entries_dir, List.append_nil, List.mem_cons]; exact Or.inr he))
     generalize rwList sel (fun _ => true) (names ++ [n]) ch st = r at ih
     obtain ⟨res, st'⟩ := r
     simp only at ih ⊢
